@@ -40,6 +40,23 @@ TEMPLATES = [
     ('if_error-1st', 'nontail', 'fn f(n: int, acc: int ?= 0)->int{ if(n == 0, acc, if_error(f(n - 1, acc + 1), 0)) }', lambda n: n),
     ('optional-or-1st', 'nontail', 'fn f(n: int)->Optional<int>{ if(n == 0, some(7), f(n - 1) || some(0)) }', lambda n: Opt(7, True)),
     ('map-callback', 'nontail', 'fn f(n: int, acc: int ?= 0)->int{ if(n == 0, acc, [0].map((z: int)->{ f(n - 1, acc + 1) })[0]) }', lambda n: n),
+    # calls in tail position that are NOT self-calls (another closure of the same literal, another function of the same shape,
+    # another overload of the same name): plain calls, whatever their position
+    ('sibling-closure', 'either', 'fn mk(k: int, next: (int)->(int))->(int)->(int){ (n: int)->{ if(n > 100, n, next(n + k)) } } '
+     'fn f(n: int)->int{ let a = mk(1, idf); let b = mk(10, a); b(n) }', lambda n: n if n > 100 else (n + 10 if n + 10 > 100 else n + 11)),
+    ('sibling-closure-chain3', 'either', 'fn mk(k: int, next: (int)->(int))->(int)->(int){ (n: int)->{ if(n > 100, n, next(n + k)) } } '
+     'fn f(n: int)->int{ let a = mk(1, idf); let b = mk(10, a); let c = mk(3, b); c(n) + 1000 * b(n) }',
+     lambda n: (lambda a, b: (n if n > 100 else b(n + 3)) + 1000 * b(n))(None, lambda m: m if m > 100 else (m + 10 if m + 10 > 100 else m + 11))),
+    ('sibling-nested-fn', 'either', 'fn mk2(k: int)->(int, int)->(int){ fn h(m: int, acc: int)->int{ if(m == 0, acc, h(m - 1, acc + k)) } h } '
+     'fn f(n: int)->int{ let h1 = mk2(1); let h2 = mk2(2); h1(n, 0) * 1000 + h2(n, 0) }', lambda n: 1002 * n),
+    ('closure-self-tail-with-capture', 'either', 'fn f(n: int)->int{ fn h(m: int, acc: int)->int{ if(m == 0, acc + n, h(m - 1, acc + 1)) } h(n, 0) + h(2, 0) }',
+     lambda n: 2 * n + n + 2),
+    ('other-fn-same-shape', 'either', 'fn g(n: int, acc: int)->int{ if(n == 0, acc + 1000, g(n - 1, acc + 1)) } '
+     'fn f(n: int, acc: int ?= 0)->int{ if(n == 0, acc, g(n - 1, acc + 1)) }', lambda n: 0 if n == 0 else n + 1000),
+    ('other-overload', 'either', 'fn r(n: int, acc: int)->int{ if(n == 0, acc, r(n - 1, acc + 1)) } '
+     'fn r(n: int, acc: str)->int{ if(n == 0, len(acc), r(n, 500)) } fn f(n: int)->int{ r(n, "ab") }', lambda n: 2 if n == 0 else n + 500),
+    ('closure-passed-to-itself', 'either', 'fn mk3(k: int)->(int, (int)->(int))->(int){ fn h(m: int, o: (int)->(int))->int{ if(m == 0, k, o(m)) } h } '
+     'fn f(n: int)->int{ let h5 = mk3(5); let h9 = mk3(9); h5(n, (m: int)->{ h9(m - m, idf) }) }', lambda n: 5 if n == 0 else 9),
     ('alias', 'either', 'fn f(n: int, acc: int ?= 0)->int{ let g = f; if(n == 0, acc, g(n - 1, acc + 1)) }', lambda n: n),
     ('partial', 'either', 'fn f(n: int, acc: int ?= 0)->int{ if(n == 0, acc, partial(f, n - 1)(acc + 1)) }', lambda n: n),
 ]
